@@ -43,6 +43,49 @@ pub fn valid_identifier_6<S: Source>(s: &mut S) {
 proof!(#[kani::unwind(10)] c14_valid_identifier_4 => valid_identifier_4);
 proof!(#[kani::unwind(12)] c14_valid_identifier_6 => valid_identifier_6);
 
+/// H-ID-unicode: strings of up to 3 characters below U+0800 (one- and two-byte UTF-8): only
+/// ASCII letters, digits and `_` make a Lua name.
+pub fn valid_identifier_unicode<S: Source>(s: &mut S) {
+    let len = s.any_usize();
+    s.assume(len >= 1 && len <= 3);
+    let mut buffer = [0u8; 6];
+    let mut size = 0;
+    let mut all_name_characters = true;
+    let mut first_is_digit = false;
+    let mut i = 0;
+    while i < 3 {
+        let code = s.any_u32();
+        s.assume(code < 0x800);
+        if i < len {
+            if code < 0x80 {
+                buffer[size] = code as u8;
+                size += 1;
+            } else {
+                buffer[size] = 0xC0 | (code >> 6) as u8;
+                buffer[size + 1] = 0x80 | (code & 0x3F) as u8;
+                size += 2;
+            }
+            let c = code as u8;
+            let ascii_name = code < 0x80 && (is_alpha(c) || is_digit(c));
+            all_name_characters &= ascii_name;
+            if i == 0 {
+                first_is_digit = code < 0x80 && is_digit(c);
+            }
+        }
+        i += 1;
+    }
+    // the encoding above is well-formed UTF-8 by construction
+    let text = unsafe { core::str::from_utf8_unchecked(&buffer[..size]) };
+    let result = hooks::is_valid_identifier(text);
+    let expected = all_name_characters && !first_is_digit && !is_reserved(&buffer[..size]);
+    note!(s, "is_valid_identifier({:?}) = {} ; Lua name: {}", text, result, expected);
+    witness!(result, "an identifier is accepted");
+    witness!(!result && size > len, "a string with a non-ASCII character is rejected");
+    claim!(s, !result || expected, "a key containing a non-ASCII character is never written as a bare name");
+    claim!(s, result || !expected, "ASCII names stay names");
+}
+proof!(#[kani::unwind(10)] c14_valid_identifier_unicode => valid_identifier_unicode);
+
 // ------------------------------------------------------------------------------------------ C18
 /// H-SLC: `is_single_line_comment` is false exactly for comments opening a long bracket.
 fn single_line_comment<S: Source, const N: usize>(s: &mut S) {
